@@ -295,5 +295,18 @@ def r11_6(ctx):
     return r
 
 
+def r11_7(ctx):
+    """both ends run this code: they can only agree on a handshake if the encoder and the decoder of every
+    message agree on where the fixed header fields live (sibling agreement on byte positions)."""
+    from engine import layout
+    r = RuleResult("R11.7", "K6", "DTLS record / handshake headers: encode and decode agree on byte positions")
+    H = "transports::dtls::handshake::"
+    pairs = [("transports::dtls::record::DtlsRecord::decode", "transports::dtls::record::DtlsRecord::encode")] + \
+        [(H + t + "::decode", H + t + "::encode") for t in ("HandshakeMessage", "ClientHello", "ServerHello", "HelloVerifyRequest", "ServerKeyExchange")]
+    n = layout.compare(r, core, ctx, pairs)
+    r.need("DTLS header fields compared", n, 17)
+    return r
+
+
 def run(ctx):
-    return [r11_1(ctx), r11_2(ctx), r11_3(ctx), r11_4(ctx), r11_5(ctx), r11_6(ctx)]
+    return [r11_1(ctx), r11_2(ctx), r11_3(ctx), r11_4(ctx), r11_5(ctx), r11_6(ctx), r11_7(ctx)]
